@@ -131,7 +131,12 @@ def run(chk, binary, count, max_objects, budget=2_500_000, per_item=120_000):
                         "sections": {k: len(v) for k, v in r["skills"].items()}})
     # Coq parses big literals slowly (~1 MB/min): pack shards by literal size and leave the
     # largest cases to the thorough tier (they are still checked by the direct oracle above)
-    shards, skipped = balance_shards(coq_cases, lambda t: len(t[2]), NCPU, budget, per_item)
+    # the model sorts the non-zero peaks by insertion (quadratic): cases with more than 20000 runs are
+    # left to the direct oracle as well
+    heavy = [t for t in coq_cases if t[2].count("(") > 20000]
+    coq_cases = [t for t in coq_cases if t[2].count("(") <= 20000]
+    shards, skipped = balance_shards(coq_cases, lambda t: len(t[2]) + (t[2].count("(") ** 2) // 40, NCPU, budget, per_item)
+    skipped = skipped + heavy
     chk.cov["strain_cases_left_to_direct_oracle_only"] = len(skipped)
     coq_cases = [t for s in shards for t in s]
     bodies = ["Definition cases : list (N * strain_case) := [\n  " +
